@@ -352,3 +352,9 @@ func (r *Report) requireLock(rule, construct string, in ssa.Instruction, fld *ty
 		what+" is not held "+m+" on some call chain", wit...)
 	return ok
 }
+
+// IsLive: the function has at least one calling context in the non-test
+// program (reachable from a public entry, main/init or a goroutine root).
+func (e *Engine) IsLive(fn *ssa.Function) bool {
+	return len(e.Contexts(fn)) > 0
+}
